@@ -68,12 +68,15 @@ impl Suite for CrashSuite {
         let mut cases = vec![];
         for i in 0..n {
             let with_restart = i % 2 == 0;
+            // one workload in eight grows the catalogue: three flushes that merge nothing
+            let cycles = i % 8 == 1;
             let f = Family {
-                factors: if with_restart { &[1, 4, 999] } else { &[0, 1, 4] },
+                factors: if cycles { &[999] } else if with_restart { &[1, 4, 999] } else { &[0, 1, 4] },
                 restarts: with_restart,
                 evicts: false,
                 max_ops: 6,
-                ..fam("crash")
+                flush_cycles: cycles,
+                ..fam(if cycles { "crash-growing-catalogue" } else { "crash" })
             };
             let mut rr = r.fork(i as u64);
             let (class, input) = crate::gen::gen_history(&mut rr, &f);
@@ -115,6 +118,7 @@ fn fam(name: &'static str) -> Family {
         null_first: false,
         mixed_case: false,
         blind: false,
+        flush_cycles: false,
         tiny_wal: false,
         max_ops: 12,
     }
